@@ -99,6 +99,13 @@ pub fn run_random(seed: u64, count: usize, max_instances: usize, mode: &str, out
             "known" => (true, false, "IgnoreUnknown", "IgnoreUnknown"),
             "unknown" => (false, true, "WriteUnknown", "ReadUnknown"),
             "noreflection" => (rng.gen_bool(0.5), true, "NoReflection", "NoReflection"),
+            // every combination of the property-behaviour options, on forests with and without unknown properties
+            "matrix" => (
+                true,
+                rng.gen_bool(0.5),
+                ["IgnoreUnknown", "WriteUnknown", "ErrorOnUnknown", "NoReflection"][rng.gen_range(0..4)],
+                ["IgnoreUnknown", "ReadUnknown", "ErrorOnUnknown", "NoReflection"][rng.gen_range(0..4)],
+            ),
             _ => (true, true, "WriteUnknown", "ReadUnknown"),
         };
         let spec = gen::DomSpec {
